@@ -56,6 +56,9 @@ func c11Alphabet(level int) []c11Op {
 	ops = append(ops, c11Op{M: "env-reward", V: "V1"}, c11Op{M: "env-reward", V: "V2"}, c11Op{M: "env-block"}, c11Op{M: "env-time"})
 	if level == 2 {
 		ops = append(ops, c11Op{M: "native", Caller: "B", Act: "Delegate", V: "V1", Amt: "1e18"}, c11Op{M: "native", Caller: "A", Act: "Undelegate", V: "V1", Amt: "1"})
+		// letters of the reward-state family (c11_multi.go): a block beginning with fees of two denoms, an odd allocation
+		// to the third validator, a stake that is no whole number of coins
+		ops = append(ops, c11Op{M: "env-fees", Amt: "a"}, c11Op{M: "env-reward", V: "V3", Amt: "odd"}, c11Op{M: "native", Caller: "B", Act: "Delegate", V: "V3", Amt: "37e16"})
 	}
 	for _, c := range callers {
 		for _, a := range amts {
@@ -166,19 +169,26 @@ func (cw *c11World) findings(path c11Path, st *c11Step, bad []c11Bad) []ev.Findi
 	return fs
 }
 
+// view modes of step: none (a prefix re-walked by a shard that does not own it), default, all accounts.
+const (
+	c11ViewsNone = iota
+	c11ViewsDefault
+	c11ViewsAll
+)
+
 // step runs one transition from nd, checks it (and the views of the P state) and returns the child.
-func (cw *c11World) step(nd *c11Node, op c11Op, allViews bool) (child *c11Node, fs []ev.Finding, class string, st *c11Step) {
+func (cw *c11World) step(nd *c11Node, op c11Op, viewMode int) (child *c11Node, fs []ev.Finding, class string, st *c11Step) {
 	t0 := time.Now()
 	st = cw.exec(nd.ctx, op)
 	t1 := time.Now()
 	bad, pKey, class := cw.check(nd.ctx, nd.key, cw.acctsOf(nd), st)
 	t2 := time.Now()
 	path := append(append(c11Path{}, nd.path...), op)
-	if pKey != nd.key && len(bad) == 0 {
+	if pKey != nd.key && len(bad) == 0 && viewMode != c11ViewsNone {
 		// views: every account after an environment step, on the first level and in replay mode; deeper down the account
 		// that acted (the others were just shown untouched) — the deeper states are reached again through other orders
 		accounts := cw.viewAccounts()
-		if !allViews && !op.isEnv() && len(nd.path) >= 1 {
+		if viewMode != c11ViewsAll && !op.isEnv() && len(nd.path) >= 1 {
 			accounts = []common.Address{st.E}
 		}
 		for _, v := range cw.views(st.P, pKey, accounts) {
@@ -203,7 +213,7 @@ func (cw *c11World) runPath(p c11Path) (fs []ev.Finding, classes []string) {
 		fs = append(fs, ev.Finding{Clause: "views-match-native", Detail: "root: " + v, Replay: map[string]interface{}{"slashed": cw.slashed, "path": c11Path{}}})
 	}
 	for _, op := range p {
-		child, f, class, _ := cw.step(nd, op, true)
+		child, f, class, _ := cw.step(nd, op, c11ViewsAll)
 		fs = append(fs, f...)
 		classes = append(classes, class)
 		nd = child
@@ -214,10 +224,17 @@ func (cw *c11World) runPath(p c11Path) (fs []ev.Finding, classes []string) {
 // c11Search is the BFS. Every shard executes depth 1 completely (cheap) to learn which first operations open a new state;
 // it records the transitions with index%n == shard and expands the new depth-1 states with rank%n == shard.
 func c11Search(run *ev.Run, cw *c11World, tag string, alpha []c11Op, maxDepth, shard, n int, dl *ev.Deadline) (depthDone int, complete bool) {
-	root := cw.rootNode()
+	return c11SearchFrom(run, cw, tag, cw.rootNode(), alpha, maxDepth, shard, n, dl)
+}
+
+// c11SearchFrom is the BFS from any start state (the root, or a state of the reward-state family reached by a prefix
+// of environment steps; the prefix stays part of every path, so a finding's replay is the whole history from the root).
+// depth counts operations after the start state.
+func c11SearchFrom(run *ev.Run, cw *c11World, tag string, root *c11Node, alpha []c11Op, maxDepth, shard, n int, dl *ev.Deadline) (depthDone int, complete bool) {
 	seen := map[[32]byte]bool{root.key: true}
 	frontier := []*c11Node{root}
 	rank := 0
+	base := len(root.path)
 	for depth := 1; depth <= maxDepth; depth++ {
 		var next []*c11Node
 		for _, nd := range frontier {
@@ -228,7 +245,7 @@ func c11Search(run *ev.Run, cw *c11World, tag string, alpha []c11Op, maxDepth, s
 					return depth - 1, false
 				}
 				mine := depth > 1 || oi%n == shard
-				child, fs, class, st := cw.step(nd, op, false)
+				child, fs, class, st := cw.step(nd, op, c11ViewsDefault)
 				if mine {
 					run.Count("transitions", 1)
 					run.Count("transitions_"+cw.tag()+"_"+tag, 1)
@@ -270,7 +287,7 @@ func c11Search(run *ev.Run, cw *c11World, tag string, alpha []c11Op, maxDepth, s
 					}
 				}
 				run.Distinct(fmt.Sprintf("%x", child.key[:12]))
-				if len(child.path) >= 2 && run.Counter("sampled_"+tag) < 1 {
+				if len(child.path) >= base+2 && run.Counter("sampled_"+tag) < 1 {
 					run.Count("sampled_"+tag, 1)
 					run.Sample(map[string]interface{}{"world": cw.tag(), "search": tag, "path": child.path.String()})
 				}
@@ -285,6 +302,8 @@ func c11Search(run *ev.Run, cw *c11World, tag string, alpha []c11Op, maxDepth, s
 	}
 	return depthDone, true
 }
+
+func b2int(b bool) int { return int(b2i(b)) }
 
 func b2i(b bool) int64 {
 	if b {
@@ -356,7 +375,7 @@ func (cw *c11World) sanity(run *ev.Run) {
 			nd := cw.rootNode()
 			var s []string
 			for _, op := range p {
-				child, fs, class, _ := cw.step(nd, op, true)
+				child, fs, class, _ := cw.step(nd, op, c11ViewsAll)
 				s = append(s, fmt.Sprintf("%x/%s/%d", child.key, class, len(fs)))
 				nd = child
 			}
@@ -377,6 +396,7 @@ func runC11(replay string) int {
 		"the native counterpart of withdrawRewards()/transfer(self)/withdrawRewardsByMessage(all) is one MsgWithdrawDelegatorReward per validator whose pending reward reaches the precompile's 0.001-coin threshold; rewards below it are only required to stay untouched; when that list is empty only effects are compared, not the success flag",
 		"distribution stores are compared byte for byte and, when they differ, in a period-free normal form (reward checkpoints are compared by content, not by period number), because the precompile runs the distribution gRPC querier, which settles validator periods, on the live context",
 		"auth is compared for tracked accounts by type and sequence; account numbers are ignored (every EVM call to a precompile consumes one)",
+		"the reward-state family drives the environment with the keeper calls a block makes (staking EndBlocker, x/distribution BeginBlocker with vote infos built from the staking module's last validator powers, fee collector funded by a bank send from a wallet); no transaction fees are charged at keeper level, so the fee amounts are an alphabet, not a consequence of the operations",
 		"worlds: 'plain', and 'V2-slashed' where validator V2 was slashed by 50 % before the exploration starts (so that shares and tokens differ); no slashing inside the explored histories",
 	}
 	worlds := map[bool]*c11World{}
@@ -426,11 +446,40 @@ func runC11(replay string) int {
 		searches = []search{{"full", full, 2, true}, {"full", full, 2, false}, {"tiny", tiny, 3, false}, {"core", core, 3, true}, {"tiny", tiny, 4, true}}
 		budget = 1500
 	}
+	// the reward-state family (c11_multi.go): layouts × schedules, then the BFS with the reward alphabet from every state
+	type family struct {
+		name    string
+		level   int
+		depth   int
+		slashed bool
+	}
+	families := []family{{"rewards", 0, 1, true}}
+	if run.Thorough() {
+		families = []family{{"rewards", 1, 1, true}, {"rewards", 1, 1, false}, {"rewards-deep", 2, 2, true}, {"rewards-deep", 2, 2, false}}
+	}
 	run.Sharded(Shards(), func(shard, n int) {
 		dl := ev.NewDeadline(secs(budget))
 		if shard == 0 {
 			get(true).sanity(run)
 			get(false).sanity(run)
+		}
+		if shard == 1%n {
+			get(true).familySanity(run)
+			get(false).familySanity(run)
+		}
+		for _, fm := range families {
+			cw := get(fm.slashed)
+			k := fmt.Sprintf("%s_%s_family_pairs", cw.tag(), fm.name)
+			if dl.Hit() {
+				run.Coverage["exhaustive"] = false
+				continue
+			}
+			lv := fm.level
+			if lv == 2 { // deeper search: thorough schedules, quick alphabet
+				lv = 0
+			}
+			done, _ := c11FamilySearch(run, cw, fm.name, c11Layouts(fm.level), c11Schedules(b2int(fm.level > 0)), c11RewardAlphabet(lv), fm.depth, shard, n, dl)
+			run.Count(k+"_completed", int64(done))
 		}
 		for _, sr := range searches {
 			cw := get(sr.slashed)
@@ -446,6 +495,11 @@ func runC11(replay string) int {
 			fmt.Fprintf(os.Stderr, "C11 shard %d: exec %v check %v views %v\n", shard, c11Prof[0], c11Prof[1], c11Prof[2])
 		}
 		run.Count("account_view_sets_compared", int64(get(true).viewsRun+get(false).viewsRun))
+		for _, cw := range []*c11World{get(true), get(false)} {
+			for shape, c := range cw.shapes {
+				run.Count("views_compared_with_"+shape, int64(c))
+			}
+		}
 	})
 	for _, m := range []string{"delegate", "undelegate", "redelegate", "withdrawReward", "withdrawRewards", "transfer", "delegateByActionMessage", "withdrawRewardsByMessage"} {
 		if run.Counter("ok_"+m) == 0 {
@@ -455,6 +509,21 @@ func runC11(replay string) int {
 	for _, c := range []string{"ok_signed_valid", "ok_by_contract_C-call", "ok_by_contract_C-deleg", "ok_by_contract_D-twice", "logs_compared"} {
 		if run.Counter(c) == 0 {
 			run.Fail(ev.Finding{Clause: "alphabet-sanity", Detail: "counter " + c + " is zero"})
+		}
+	}
+	// the reward-state family must contain what it is there for: a delegator with pending rewards at two and at three
+	// validators whose fractional parts add up to less than one, exactly one, more than one (and, at three, more than two)
+	// base units, and rewards in two denoms — by the native query's answer
+	for _, need := range []string{
+		"rewards-at-2-validators/fractions-sum<1", "rewards-at-2-validators/fractions-sum=1", "rewards-at-2-validators/fractions-sum-in(1,2)",
+		"rewards-at-3-validators/fractions-sum<1", "rewards-at-3-validators/fractions-sum=1", "rewards-at-3-validators/fractions-sum-in(1,2)", "rewards-at-3-validators/fractions-sum>2",
+	} {
+		c := run.Counter("family_delegator_states_with_"+need+"/1-denoms") + run.Counter("family_delegator_states_with_"+need+"/2-denoms")
+		if c == 0 {
+			run.Fail(ev.Finding{Clause: "alphabet-sanity", Detail: "the reward-state family has no delegator state with " + need})
+		}
+		if run.Counter("family_delegator_states_with_"+need+"/2-denoms") == 0 && !strings.Contains(need, ">2") {
+			run.Fail(ev.Finding{Clause: "alphabet-sanity", Detail: "the reward-state family has no delegator state with " + need + " in two denoms"})
 		}
 	}
 	var desc []string
@@ -469,6 +538,18 @@ func runC11(replay string) int {
 			maxDepth = sr.depth
 		}
 	}
+	for _, fm := range families {
+		w := "plain"
+		if fm.slashed {
+			w = "V2-slashed"
+		}
+		lv := fm.level
+		if lv == 2 {
+			lv = 0
+		}
+		desc = append(desc, fmt.Sprintf("reward-state family '%s' on world %s: %d delegation layouts × %d reward schedules, all views of all accounts after every step, then the reward alphabet (%d ops) to depth %d from every one of the states",
+			fm.name, w, len(c11Layouts(fm.level)), len(c11Schedules(b2int(fm.level > 0))), len(c11RewardAlphabet(lv)), fm.depth))
+	}
 	run.Coverage["states"] = run.NumDistinct() + 2
 	run.Coverage["transitions"] = int(run.Counter("transitions"))
 	run.Coverage["traces_validated_against_impl"] = int(run.Counter("twin_executions"))
@@ -476,6 +557,6 @@ func runC11(replay string) int {
 	if _, ok := run.Coverage["exhaustive"]; !ok {
 		run.Coverage["exhaustive"] = true
 	}
-	run.Coverage["rule"] = "twin-branch BFS over CacheContext branches of the real state: root = 3 bonded validators, EOAs A (delegated 1e18 to V1 and 1 wei to V2) and B, forwarder contract C (delegated 1e18 to V2), contract D that calls the precompile twice per call (delegated 1e18 to V1), 3e18 rewards allocated to V1 and V2; from each state P = operation through evm.Call on the staking precompile, N = the native MsgDelegate/MsgUndelegate/MsgBeginRedelegate/MsgWithdrawDelegatorReward list through the SDK message servers on a sibling branch; P is compared with N (all stores, success, EVM logs vs. module events, non-callers untouched, every view vs. gRPC query) and the search continues from P, dedup on the canonical state key + header. Alphabets: full = callers {A, B, C by CALL, C by DELEGATECALL} × {delegate, undelegate}(V1|V2|unknown) × amounts {1e18, 1, 0, all, all+1}, redelegate over 6 validator pairs, D calling delegate/undelegate/redelegate/withdrawReward twice in one call, transfer(self|other), withdrawReward(V1|V2|unknown), withdrawRewards, delegateByActionMessage (Delegate/Undelegate/Redelegate) and withdrawRewardsByMessage (all|V1) with signature variants {valid, signer≠delegator, delegator≠caller, chain id+1, tampered after signing} for A and B and {relayed valid message of A, contract names itself} for C, native delegate/undelegate as environment, reward allocation to V1/V2, unbonding period elapsing (real staking EndBlocker); core = callers {A,B,C by CALL} × validators {V1,V2} × amounts {1e18,1,all} + all signature variants; tiny = callers {A, C by DELEGATECALL} × amounts {1e18, all} + valid/other-delegator signatures. Searches: " + strings.Join(desc, "; ") + ". Sharded on the first operation (new depth-1 states dealt round-robin). states = distinct canonical keys (root included)"
+	run.Coverage["rule"] = "twin-branch BFS over CacheContext branches of the real state: root = 3 bonded validators, EOAs A (delegated 1e18 to V1 and 1 wei to V2) and B, forwarder contract C (delegated 1e18 to V2), contract D that calls the precompile twice per call (delegated 1e18 to V1), 3e18 rewards allocated to V1 and V2; from each state P = operation through evm.Call on the staking precompile, N = the native MsgDelegate/MsgUndelegate/MsgBeginRedelegate/MsgWithdrawDelegatorReward list through the SDK message servers on a sibling branch; P is compared with N (all stores, success, EVM logs vs. module events, non-callers untouched, every view vs. gRPC query) and the search continues from P, dedup on the canonical state key + header. Alphabets: full = callers {A, B, C by CALL, C by DELEGATECALL} × {delegate, undelegate}(V1|V2|unknown) × amounts {1e18, 1, 0, all, all+1}, redelegate over 6 validator pairs, D calling delegate/undelegate/redelegate/withdrawReward twice in one call, transfer(self|other), withdrawReward(V1|V2|unknown), withdrawRewards, delegateByActionMessage (Delegate/Undelegate/Redelegate) and withdrawRewardsByMessage (all|V1) with signature variants {valid, signer≠delegator, delegator≠caller, chain id+1, tampered after signing} for A and B and {relayed valid message of A, contract names itself} for C, native delegate/undelegate as environment, reward allocation to V1/V2, unbonding period elapsing (real staking EndBlocker); core = callers {A,B,C by CALL} × validators {V1,V2} × amounts {1e18,1,all} + all signature variants; tiny = callers {A, C by DELEGATECALL} × amounts {1e18, all} + valid/other-delegator signatures. Searches: " + strings.Join(desc, "; ") + ". Sharded on the first operation (new depth-1 states dealt round-robin). Reward-state family (start states of a second search, every one a path of environment steps from the root): layout = native MsgDelegate steps giving B / contract C / A stakes of 0.50, 0.37, 0.73, 1.11 coins at two and at three validators at once (quick: B over {0, 0.50, 0.73}^3 plus four vectors with 0.37, two vectors of C, one of A, two layouts with three delegators on every validator; thorough: B over {0, 0.50, 0.37, 0.73, 1.11}^3 within its balance, four vectors of C, three of A, three combined layouts); schedule = how rewards arrive afterwards: a block beginning with fees of two denoms in the fee collector (staking EndBlocker, next height, real x/distribution BeginBlocker with the votes of the last validator set: community tax, power fractions, DecCoins), two such blocks, direct AllocateTokensToValidator of 3e18 / of odd two-denom amounts to two or three validators, fees in the non-bond denom only, a further delegation between two fee blocks (thorough: 6 more, with an undelegation in between); work item = (layout, schedule) pair dealt round-robin to the shards. Which shapes of pending rewards were met (validators with a reward, sum of the fractional parts of the per-validator amounts, denoms; from the native DelegationTotalRewards answer) is in the counters family_delegator_states_with_* and views_compared_with_*; the shapes 'two / three validators, fractional parts adding up to <1, exactly 1, between 1 and 2, more than 2 (three validators)' are required to be non-empty. states = distinct canonical keys (root included)"
 	return run.Finish()
 }
